@@ -60,6 +60,12 @@ func stage(t *vk.T, fam, name string, src string, fn func() error) bool {
 		}()
 		if err := fn(); err != nil {
 			ok = false
+			if name == "client-api" && strings.Contains(fam, "list-request:") {
+				// a list-shaped request on a method whose response is not a list: the client API may
+				// refuse it with an error (the documentation does not say it is valid); it must not crash
+				t.Class("list-request-refused")
+				return
+			}
 			t.Violation("stage-fails|"+name+"|"+fam+"|"+vk.ErrTail(err), fmt.Sprintf("stage %s fails: %v\n%s", name, err, src), src, nil, err.Error())
 		}
 	}()
